@@ -7,7 +7,8 @@ use serde_json::{json, Value};
 
 pub const SYMS: [u8; 9] = [b'\n', b'\r', b' ', b'a', b':', b'#', b'1', b'-', b'>'];
 
-pub const TOKENS: [&[u8]; 18] = [
+pub const TOKENS: [&[u8]; 19] = [
+    b"\xef\xbb\xbf",
     b"\\",
     b" ",
     b"    ",
@@ -233,6 +234,32 @@ fn long_line_family(joined: &mut Vec<u8>, acc: &mut Acc) {
     }
 }
 
+/// error-run family: N consecutive malformed lines (N around 100 / 1000 / 10000 / 65536 / 100000) followed by
+/// ordinary lines - an iterator that "gives up" after a run of errors would drop what follows; also runs that are
+/// interrupted by one good line, and runs at the very start vs after a header
+fn error_run_family(joined: &mut Vec<u8>, acc: &mut Acc) {
+    let tail: Vec<u8> = CUT_LINES.iter().flat_map(|l| l.bytes().chain(std::iter::once(b'\n'))).collect();
+    for n in [99usize, 100, 101, 255, 256, 999, 1000, 1001, 4096, 9999, 10000, 10001, 65535, 65536, 100000] {
+        for (bad, sep) in [(&b"garbage line"[..], &b"\n"[..]), (b"    1:void broken() -> x", b"\r\n"), (b"\xff\xfe", b"\n")] {
+            for lead in [&b""[..], b"# compiler: R8\n"] {
+                let mut a: Vec<u8> = lead.to_vec();
+                for i in 0..n {
+                    a.extend_from_slice(bad);
+                    if i + 1 < n {
+                        a.extend_from_slice(sep);
+                    }
+                }
+                acc.states += 1;
+                acc.transitions += 1;
+                acc.count("error-run family pairs", 1);
+                if check_single(&a, acc) {
+                    check_pair(&a, &tail, b"\n", joined, acc);
+                }
+            }
+        }
+    }
+}
+
 fn cut_family(joined: &mut Vec<u8>, acc: &mut Acc) {
     let all: Vec<u8> = CUT_LINES.iter().flat_map(|l| l.bytes().chain(std::iter::once(b'\n'))).collect();
     for l in CUT_LINES {
@@ -410,7 +437,7 @@ pub fn run(tier: Tier) -> i32 {
                 let mut a = Vec::new();
                 a.extend_from_slice(TOKENS[*a0]);
                 a.extend_from_slice(TOKENS[*a1]);
-                rec(&mut a, amax - 2, &bs, &mut joined, acc, budget, t);
+                rec(&mut a, amax - 2, &bs, &mut joined, acc, budget, false);
             }
             Work::PairsShort => {
                 for a in all_token_strings(1) {
@@ -424,6 +451,7 @@ pub fn run(tier: Tier) -> i32 {
                 }
                 cut_family(&mut joined, acc);
                 long_line_family(&mut joined, acc);
+                error_run_family(&mut joined, acc);
             }
             Work::Corpus(i, shard, n, stride) => {
                 let (name, bytes) = &corpus[*i];
@@ -469,7 +497,7 @@ pub fn run(tier: Tier) -> i32 {
         prop: "C06",
         tier,
         level: "model_checking",
-        rule: format!("inputs enumerated exhaustively: all byte strings of length <= {} over the 9 symbols LF CR SP a : # 1 - >; all strings of <= {} tokens over the 18-token alphabet (backslash, single space, delimiters, sourceFile prefix, '\"}}', invalid UTF-8, Latin-1 'numeric' byte, 30-digit run); every split of each of them at LF / lone CR / CRLF; all pairs (A, B) with A <= {} tokens, B <= 2 tokens joined by LF (and by CR and CRLF with A one token shorter in the quick tier); the cut family (14 well-formed lines cut at every byte, x 3 contexts before x 2 after x 3 line breaks); the long-line family (malformed, well-formed and digit-run lines of 1023..2^20+16 bytes followed by ordinary lines); line-boundary splits of the corpus files. Oracle: iteration ends within len+1 items without panic, no yielded string contains CR/LF, records(A+linebreak+B) = records(A)++records(B) (Ok records exactly, Err items by offending line modulo terminator, zero-length error items ignored). states = strings / pairs / splits; distinct = distinct item streams", sym_depth, tok_depth, amax),
+        rule: format!("inputs enumerated exhaustively: all byte strings of length <= {} over the 9 symbols LF CR SP a : # 1 - >; all strings of <= {} tokens over the 19-token alphabet (UTF-8 byte order mark, backslash, single space, delimiters, sourceFile prefix, '\"}}', invalid UTF-8, Latin-1 'numeric' byte, 30-digit run); every split of each of them at LF / lone CR / CRLF; all pairs (A, B) with A <= {} tokens, B <= 2 tokens joined by LF (and by CR and CRLF with A one token shorter); the cut family (14 well-formed lines cut at every byte, x 3 contexts before x 2 after x 3 line breaks); the long-line family (malformed, well-formed and digit-run lines of 1023..2^20+16 bytes followed by ordinary lines); the error-run family (99..100000 consecutive malformed lines followed by ordinary lines); line-boundary splits of the corpus files. Oracle: iteration ends within len+1 items without panic, no yielded string contains CR/LF, records(A+linebreak+B) = records(A)++records(B) (Ok records exactly, Err items by offending line modulo terminator, zero-length error items ignored). states = strings / pairs / splits; distinct = distinct item streams", sym_depth, tok_depth, amax),
         bounds: json!({"byte_string_length": sym_depth, "token_string_depth": tok_depth, "pairs": {"A_tokens": amax, "B_tokens": 2}, "tokens": TOKENS.iter().map(|t| esc(t)).collect::<Vec<_>>(), "corpus": "small files: every line boundary; the two files > 100 kB: every 1024th (quick) / 32nd (thorough) line boundary - that part is a stride, not exhaustive"}),
         assumptions: vec!["reading I3: a zero-length error item (blank tail after an error line) is not a malformed line".into()],
         trusted_base: vec!["rustc/std".into(), "Debug formatting of ProguardRecord for exact comparison of Ok records".into()],
